@@ -34,6 +34,12 @@ pub fn setup_io_uring(
 ) -> Result<IoUring> {
     let mut params = IoUringParams::new(flags, sq_thread_cpu, sq_thread_idle);
     let fd = io_uring_setup(entries, &mut params)?;
+    // Releases the descriptor and the mappings made so far if a later step fails
+    let mut guard = SetupGuard {
+        fd,
+        mappings: [(0, 0); 3],
+        num_mappings: 0,
+    };
     let mut cq_size = core::mem::size_of::<IoUringCompletionQueueEntry>();
     if flags.contains(IoUringParamFlags::IORING_SETUP_CQE32) {
         cq_size += core::mem::size_of::<IoUringCompletionQueueEntry>();
@@ -60,10 +66,12 @@ pub fn setup_io_uring(
             Some(fd),
             i64::from(IORING_OFF_SQ_RING),
         )?;
+        guard.mappings[guard.num_mappings] = (sq_ring_ptr, sq_ring_sz);
+        guard.num_mappings += 1;
         let cq_ring_ptr =
             if params.0.features & IoUringFeatFlags::IORING_FEAT_SINGLE_MMAP.bits() == 0 {
                 // cq offset from https://kernel.dk/io_uring.pdf
-                mmap(
+                let cq_ring_ptr = mmap(
                     None,
                     // Safety: The kernel rejects 0 entries as `EINVAL` and the size isn't 0
                     NonZeroUsize::new_unchecked(cq_ring_sz),
@@ -72,7 +80,10 @@ pub fn setup_io_uring(
                     MapAdditionalFlags::MAP_POPULATE,
                     Some(fd),
                     i64::from(IORING_OFF_CQ_RING),
-                )?
+                )?;
+                guard.mappings[guard.num_mappings] = (cq_ring_ptr, cq_ring_sz);
+                guard.num_mappings += 1;
+                cq_ring_ptr
             } else {
                 sq_ring_ptr
             };
@@ -97,6 +108,8 @@ pub fn setup_io_uring(
             Some(fd),
             i64::from(IORING_OFF_SQES),
         )?;
+        guard.mappings[guard.num_mappings] = (sqes, sqe_size * params.0.sq_entries as usize);
+        guard.num_mappings += 1;
         let sqes = NonNull::new_unchecked(sqes as *mut IoUringSubmissionQueueEntry);
         let cq_khead = into_non_null(cq_ring_ptr, params.0.cq_off.head as usize)?;
         let cq_ktail = into_non_null(cq_ring_ptr, params.0.cq_off.tail as usize)?;
@@ -115,6 +128,8 @@ pub fn setup_io_uring(
         for index in 0..sq_ring_entries {
             (*sq_array.as_ptr().add(index as usize)).store(index, Ordering::Release);
         }
+        // Everything succeeded, the `IoUring` takes over the descriptor and the mappings
+        core::mem::forget(guard);
         // Safety: All pointers are guaranteed to not be a null-pointer,
         // we get them from a successful `mmap`
         Ok(IoUring {
@@ -146,6 +161,24 @@ pub fn setup_io_uring(
                 entries: cq_cqes,
             },
         })
+    }
+}
+
+/// What `setup_io_uring` has acquired so far, released on drop unless forgotten on success
+struct SetupGuard {
+    fd: Fd,
+    mappings: [(usize, usize); 3],
+    num_mappings: usize,
+}
+
+impl Drop for SetupGuard {
+    fn drop(&mut self) {
+        for (ptr, len) in &self.mappings[..self.num_mappings] {
+            if let Some(len) = NonZeroUsize::new(*len) {
+                let _ = unsafe { crate::unistd::munmap(*ptr, len) };
+            }
+        }
+        let _ = crate::unistd::close(self.fd);
     }
 }
 
